@@ -560,6 +560,58 @@ theorem T_C12_exception_recover (p c : Mesh) (hd : p.depot = c.depot) (hdel : p.
   have hs : slavePatches p = slavePatches c := by simp [slavePatches, hm]
   rw [RT_lists, RT_lists, hl, hs, hp, hi, recover_patches]
 
+/-- Recovery, unconditionally on the model (round 6e).  An `assemble()` of a mesh without vertices (a fresh or cleared
+    mesh — the only meshes `write()` and `backport()` assemble) in whose depot no identity occurs twice is left by an
+    exception at operation `b`.  Then `delete(b); clear(); assemble()` gives **the very state** — all lists, patch table
+    with its entries and their order, flags — of the mesh that never went through the interrupted assembly; by `T_C12_delete`
+    its lists and its file are those of the mesh that never held `b`. -/
+theorem T_C12_exception_recover_assembleX (m p : Mesh) (h : assembleX m = (p, true)) (hv : m.lists.verts = [])
+    (hn : (m.depot.map (·.id)).Nodup) :
+    ∃ pre b post, m.depot = pre ++ b :: post ∧ b.id ∉ m.deleted ∧
+      RT (delete p b.id) = RT (delete m b.id) ∧
+      (RT (delete p b.id)).lists = (RT (without m b.id)).lists ∧
+      written (RT (delete p b.id)) = written (RT (without m b.id)) := by
+  obtain ⟨pre, b, post, P, hdep, hb, hpre, hp, _⟩ := T_C12_exception_state m p h
+  refine ⟨pre, b, post, hdep, hb, ?_⟩
+  -- identities before `b` differ from `b`'s
+  have hne : ∀ o ∈ pre, o.id ≠ b.id := by
+    intro o ho e
+    rw [hdep, List.map_append, List.map_cons] at hn
+    have := (List.nodup_append.mp hn).2.2 o.id (List.mem_map.mpr ⟨o, ho, rfl⟩) b.id (by simp)
+    exact this e
+  have hpat : p.lists.patches = addItems m.lists.patches
+      (allItems (slavePatches m) (pre.filter (fun o => decide (o.id ∉ m.deleted))) []) := by
+    rw [hp]
+    show P.patches = _
+    rw [assembleLoopX_patches _ _ _ _ _ hpre, hv]
+  have hfil : pre.filter (fun o => decide (o.id ∉ b.id :: m.deleted)) = pre.filter (fun o => decide (o.id ∉ m.deleted)) := by
+    apply List.filter_congr
+    intro o ho
+    simp [hne o ho]
+  have hlive : liveOps (delete m b.id) =
+      pre.filter (fun o => decide (o.id ∉ m.deleted)) ++ post.filter (fun o => decide (o.id ∉ b.id :: m.deleted)) := by
+    simp only [liveOps, delete, hdep, List.filter_append, List.filter_cons]
+    rw [hfil]
+    simp
+  obtain ⟨S, hS⟩ := allItems_append (slavePatches m) (pre.filter (fun o => decide (o.id ∉ m.deleted)))
+    (post.filter (fun o => decide (o.id ∉ b.id :: m.deleted))) []
+  have hdepot : p.depot = m.depot := by rw [hp]
+  have hdel : p.deleted = m.deleted := by rw [hp]
+  have hmer : p.merged = m.merged := by rw [hp]
+  have hl : (RT (delete p b.id)).lists = (RT (delete m b.id)).lists := by
+    apply T_C12_exception_recover (delete p b.id) (delete m b.id) (by simp [delete, hdepot]) (by simp [delete, hdel])
+      (by simp [delete, hmer]) _ S
+    · exact hpat
+    · show allItems (slavePatches m) (liveOps (delete m b.id)) [] = _
+      rw [hlive, hS]
+  have hst : RT (delete p b.id) = RT (delete m b.id) := by
+    rw [RT_eta (delete p b.id), RT_eta (delete m b.id), hl]
+    rw [hp]
+    rfl
+  refine ⟨hst, ?_, ?_⟩
+  · rw [hst]; exact (T_C12_delete m b.id).1
+  · rw [hst]; exact (T_C12_delete m b.id).2.1
+
 /-! ### vertex identity by distance < TOL (round 6d) -/
 
 /-- The code merges corners closer than `constants.TOL` (`vfindT`, C05's `closeV3` with the TOL of the current source); the
@@ -813,5 +865,10 @@ example : Separated (· ∈ ([0, 1, 2, 3, 4, 5, 6, 7, 8, 9, 10, 11] : List Pt)) 
 /-- … and the hypothesis is needed: two points 1e-8 apart are one vertex for the code and two for the exact search -/
 example : vfindT ⟨1/100000000, 0, 0⟩ [] [⟨0, [], []⟩] = some 0 ∧ vfind ⟨1/100000000, 0, 0⟩ [] [⟨0, [], []⟩] = none := by
   decide +kernel
+
+/-- hypotheses of `T_C12_exception_recover_assembleX` hold for `exBad`: the assembly raises, the mesh had no vertices, the
+    three identities are different -/
+example : (assembleX (run {} exBad)).2 = true ∧ (run {} exBad).lists.verts = [] ∧
+    ((run {} exBad).depot.map (·.id)).Nodup := by decide +kernel
 
 end CBV.C12
